@@ -154,7 +154,12 @@ def run_check(pid, tier, mod=None, extra_stages=(), extra_cov=None):
                             unsupported=['solvers disagree on a dumped path condition: %r' % (x,) for x in second['disagreements'][:3]]))
     extra, ground_bad = None, []
     if hasattr(mod, 'ground_stage'):
-        extra, ground_bad = mod.ground_stage()
+        try:
+            extra, ground_bad = mod.ground_stage()
+        except Exception as e:      # a crash of a stage is a harness error; it must not hide what the other stages found
+            import traceback
+            results.append(dict(paths=0, aborted=0, decisions=0, violations=[], samples=[], exhaustive=False, failures_by_sig={}, queries=0, solver_s=0.0, wall_s=0.0,
+                                leaks=0, name='ground-stage', harness='-', params={}, unsupported=['stage crashed: %r\n%s' % (e, traceback.format_exc()[-1200:])]))
     if extra_cov:
         extra = dict(extra or {}, **extra_cov)
     return finish(pid, tier, mod, results, t0, seed, extra, ground_bad)
